@@ -82,10 +82,13 @@ def contrastive_runs(rep: Report, rng: random.Random, thorough: bool):
     traces = []
     for b in range(2, 9):
         for n in range(1, b):
-            for rep_i in range(3 if thorough else 1):
+            for rep_i in range(6 if thorough else 2):
                 rs = np.random.default_rng(rng.randrange(2**31))
-                x = rs.normal(size=(b, dim))
-                c = rs.normal(size=(b, dim))
+                # odd repetitions: rows far apart, so that logits differ by thousands of nats (a sharp posterior and a row
+                # in its tail): the cross-entropy is still finite, about the largest logit gap
+                spread = [1.0, 40.0, 1.0, 300.0, 1.0, 8.0][rep_i]
+                x = rs.normal(size=(b, dim)) * spread
+                c = rs.normal(size=(b, dim)) * spread
                 x[:, 0] = np.arange(b)
                 c[:, 0] = np.arange(b) + 1000
                 LOG.clear()
@@ -114,7 +117,7 @@ def contrastive_runs(rep: Report, rng: random.Random, thorough: bool):
                     tot += -(pos - logsumexp(logits))
                 ref = tot / b
                 matches = ok_rows and abs(val - ref) <= 1e-10 * (1 + abs(ref))
-                traces.append({"cfg": {"b": b, "n": n}, "ev": [{"c": cc, "x": xx} for cc, xx in pairs],
+                traces.append({"cfg": {"b": b, "n": n, "spread": spread}, "ev": [{"c": cc, "x": xx} for cc, xx in pairs],
                                "ret": {"value_matches": bool(matches), "nonneg": bool(val >= -1e-12), "value": val, "reference": ref}})
                 rep.count(1, ("contrastive", b, n, rep_i) if n < b - 1 else None)
     return traces
